@@ -34,7 +34,7 @@ def run(gen_path, modules, rlimit=30, threads=16, seed=None, cache_dir=None, ext
     """returns dict: cmd, wall_s, diags (list of error dicts), verified, errors, func_times, ok_run(bool), raw_err"""
     text = open(gen_path, 'rb').read()
     cmd = [VERUS, os.path.basename(gen_path), '--error-format=json', '--output-json', '--time',
-           '--multiple-errors', '100', '--rlimit', str(rlimit), '--num-threads', str(threads)]
+           '--multiple-errors', '20', '--rlimit', str(rlimit), '--num-threads', str(threads)]
     for m in modules:
         cmd += ['--verify-module', m]
     if seed is not None:
